@@ -26,9 +26,24 @@ EVID = os.path.join(VERIF, "evidence")
 REPLAY = os.path.join(EVID, "replay")
 NCPU = os.cpu_count() or 4
 COV = bool(os.environ.get("VERIF_COV"))   # gcov-instrumented harness builds, used only by tools/covreport.py
-if os.path.realpath(REPO) != "/repo":     # a run against a scratch copy (seeded change) must not touch /repo's evidence
-    EVID = os.path.join(BUILD, "altevidence", os.path.basename(os.path.realpath(REPO)))
+if os.path.realpath(REPO) != "/repo":
+    # A run against a scratch copy of the repository (a seeded change) gets a world of its own: build products, evidence and a
+    # private copy of the Coq tree (the translator rewrites Gen/*.v from the tree under test; doing that in /verif/coq would
+    # disturb, and be disturbed by, checks that run on /repo at the same time).
+    BUILD = os.path.join(VERIF, "build", "alt", os.path.basename(os.path.realpath(REPO)))
+    EVID = os.path.join(BUILD, "evidence")
     REPLAY = os.path.join(EVID, "replay")
+    _coq0, COQ = COQ, os.path.join(BUILD, "coq")
+    THEORIES = os.path.join(COQ, "theories")
+    if not os.path.isdir(COQ):
+        import shutil as _sh
+        os.makedirs(BUILD, exist_ok=True)
+        _tmp = COQ + ".%d.tmp" % os.getpid()
+        _sh.copytree(_coq0, _tmp, copy_function=_sh.copy2)     # copy2 keeps mtimes: compiled files stay up to date
+        try:
+            os.rename(_tmp, COQ)
+        except OSError:
+            _sh.rmtree(_tmp, ignore_errors=True)               # another process of the same run was faster
 if COV:                                   # a coverage run is not a check: it must not rewrite the evidence
     EVID = os.path.join(BUILD, "covevidence")
     REPLAY = os.path.join(EVID, "replay")
